@@ -38,6 +38,7 @@ type bprover struct {
 	vals    map[string]ssa.Value
 	entry   []dfact
 	stack   map[string]bool
+	inTrans bool
 	budget  int
 	why     string
 	inBound bool
@@ -148,6 +149,13 @@ func (p *bprover) lin(v ssa.Value) lt {
 			// a load of a struct field: identify it with the earliest dominating load of the same field address
 			// when nothing in between can change the field (no store to that field name, no call)
 			if x.Op == token.MUL {
+				// a variable that lives in a cell because a closure reads it, assigned once before the closure exists
+				if al, ok := x.X.(*ssa.Alloc); ok {
+					if sv, ok := singleStoreCell(al, x); ok {
+						v = sv
+						continue
+					}
+				}
 				if fa, ok := x.X.(*ssa.FieldAddr); ok {
 					if rep := p.fieldLoadRep(x, fa); rep != nil {
 						n := "v:" + rep.Name()
@@ -181,6 +189,45 @@ func (p *bprover) condFacts(cond ssa.Value, neg bool) (fs []dfact, ns []dneq, pa
 				fs = append(fs, dfact{n, "0", 0}) // n <= 0
 			} else {
 				fs = append(fs, dfact{"0", n, -1}) // n >= 1
+			}
+		}
+		// (first, last, ok := window(..); if ok { .. }): what the helper guarantees about its integer results, one against
+		// another and against the integers it was given, on the returns that hand back this truth value
+		if ex, isEx := cond.(*ssa.Extract); isEx && isBoolType(ex.Type()) {
+			if call, isCall := ex.Tuple.(*ssa.Call); isCall && call.Referrers() != nil {
+				if cf := call.Call.StaticCallee(); cf != nil && firstParty(cf) && cf.Blocks != nil && !call.Call.IsInvoke() {
+					var ints []*ssa.Extract
+					for _, r := range *call.Referrers() {
+						if o, ok := r.(*ssa.Extract); ok && isSignedInt(o.Type()) {
+							ints = append(ints, o)
+						}
+					}
+					node := func(o *ssa.Extract) string {
+						n := "v:" + o.Name()
+						p.vals[n] = o
+						return n
+					}
+					for _, a := range ints {
+						for _, b := range ints {
+							if a != b && p.c.resultRelWhen(cf, a.Index, b.Index, -1, ex.Index, !neg) {
+								fs = append(fs, dfact{node(a), node(b), 0})
+							}
+						}
+						for j, arg := range call.Call.Args {
+							if j >= len(cf.Params) || !isSignedInt(arg.Type()) {
+								continue
+							}
+							if p.c.resultRelWhen(cf, a.Index, -1, j, ex.Index, !neg) {
+								l := p.lin(arg)
+								fs = append(fs, dfact{node(a), l.n, l.k})
+							}
+							if p.c.resultRelWhen(cf, -1, a.Index, j, ex.Index, !neg) {
+								l := p.lin(arg)
+								fs = append(fs, dfact{l.n, node(a), -l.k})
+							}
+						}
+					}
+				}
 			}
 		}
 		return
@@ -274,9 +321,7 @@ func (s *factSet) add(fs []dfact, ns []dneq, par map[string]int) {
 func (p *bprover) edgeFacts(from, to *ssa.BasicBlock, s *factSet) {
 	if cond, neg, ok := branchCond(from, to); ok {
 		s.add(p.condFacts(cond, neg))
-		if !neg {
-			p.mapRangeFacts(cond, from, s)
-		}
+		p.mapRangeFacts(cond, from, s, neg)
 		p.boolPhiFacts(cond, neg, s, 0)
 	}
 }
@@ -328,7 +373,7 @@ func (p *bprover) boolPhiFacts(cond ssa.Value, neg bool, s *factSet, depth int) 
 // mapRangeFacts: inside the body of `for k := range m` (the edge taken when the iterator yields an element) a counter of
 // the loop header that starts at the constant c0 and grows by one per iteration at most is below c0 + len(m): a map
 // that is not modified by the loop yields each key once, so at most len(m)-1 iterations were completed before this one.
-func (p *bprover) mapRangeFacts(cond ssa.Value, header *ssa.BasicBlock, s *factSet) {
+func (p *bprover) mapRangeFacts(cond ssa.Value, header *ssa.BasicBlock, s *factSet, exit bool) {
 	ex, ok := cond.(*ssa.Extract)
 	if !ok || ex.Index != 0 {
 		return
@@ -366,6 +411,58 @@ func (p *bprover) mapRangeFacts(cond ssa.Value, header *ssa.BasicBlock, s *factS
 	}
 	ln := "len:" + canon(rg.X)
 	p.vals[ln] = rg.X
+	if exit {
+		// behind the loop: a slice that starts empty and gets exactly one element per iteration has one per key
+		for _, in := range header.Instrs {
+			phi, ok := in.(*ssa.Phi)
+			if !ok {
+				break
+			}
+			if _, isSl := phi.Type().Underlying().(*types.Slice); !isSl {
+				continue
+			}
+			good, have := true, false
+			for i, pred := range header.Preds {
+				e := phi.Edges[i]
+				if body[pred] {
+					ap, ok := e.(*ssa.Call)
+					if !ok {
+						good = false
+						break
+					}
+					app, isApp := isAppend(ap)
+					if !isApp || app.Call.Args[0] != ssa.Value(phi) {
+						good = false
+						break
+					}
+					if elems, ok := sliceLiteralElems(app.Call.Args[1]); !ok || len(elems) != 1 {
+						good = false
+						break
+					}
+					continue
+				}
+				switch y := e.(type) {
+				case *ssa.MakeSlice:
+					if k, ok := constInt(y.Len); !ok || k != 0 {
+						good = false
+					}
+				case *ssa.Const:
+					if y.Value != nil {
+						good = false
+					}
+				default:
+					good = false
+				}
+				have = true
+			}
+			if good && have {
+				sl := lenNode(phi)
+				p.vals[sl] = phi
+				s.fs = append(s.fs, dfact{sl, ln, 0}, dfact{ln, sl, 0})
+			}
+		}
+		return
+	}
 	for _, in := range header.Instrs {
 		phi, ok := in.(*ssa.Phi)
 		if !ok {
@@ -536,8 +633,19 @@ var sizeFields = map[string]string{
 }
 
 func sizeField(fa *ssa.FieldAddr) bool {
-	_, ok := sizeFields[namedOf(fa.X.Type())+"."+fieldName(fa)]
-	return ok
+	if _, ok := sizeFields[namedOf(fa.X.Type())+"."+fieldName(fa)]; ok {
+		return true
+	}
+	// the two mirrored counters, whatever their fields are called now (found by what the code does with them)
+	if simC != nil {
+		simC.ensureCounterPairs()
+		for _, p := range counterPairs {
+			if p.cntType == namedOf(fa.X.Type()) && p.cntField == fieldName(fa) {
+				return true
+			}
+		}
+	}
+	return false
 }
 
 // paramNonNegHook answers "is this integer parameter non-negative at every call site" (set by the checker context).
@@ -638,7 +746,8 @@ func (p *bprover) defFacts(s *factSet, goal dfact) {
 	for i := 0; i < len(work) && i < 400; i++ {
 		n := work[i]
 		if strings.HasPrefix(n, "len:") {
-			s.fs = append(s.fs, dfact{"0", n, 0}) // len >= 0
+			s.fs = append(s.fs, dfact{"0", n, 0})       // len >= 0
+			s.fs = append(s.fs, dfact{n, "0", 1 << 48}) // and no address space holds more elements than this
 			v := p.vals[n]
 			if v == nil {
 				continue
@@ -978,6 +1087,39 @@ func (p *bprover) defFacts(s *factSet, goal dfact) {
 							s.fs = append(s.fs, dfact{n, l.n, l.k})
 							push(l.n)
 						}
+						if j == 0 && call.Referrers() != nil {
+							// (first, last, ok := normRange(..)): the helper hands its results back in order
+							for _, r := range *call.Referrers() {
+								o, ok := r.(*ssa.Extract)
+								if !ok || o.Index == x.Index || !isSignedInt(o.Type()) {
+									continue
+								}
+								if p.c.resultLeResult(cf, x.Index, o.Index) {
+									on := "v:" + o.Name()
+									p.vals[on] = o
+									s.fs = append(s.fs, dfact{n, on, 0})
+									push(on)
+								}
+								if p.c.resultLeResult(cf, o.Index, x.Index) {
+									on := "v:" + o.Name()
+									p.vals[on] = o
+									s.fs = append(s.fs, dfact{on, n, 0})
+									push(on)
+								}
+							}
+						}
+						if isSignedInt(arg.Type()) && j < len(cf.Params) {
+							if p.c.resultLeParam(cf, x.Index, j) {
+								a := p.lin(arg)
+								s.fs = append(s.fs, dfact{n, a.n, a.k})
+								push(a.n)
+							}
+							if p.c.resultGeParam(cf, x.Index, j) {
+								a := p.lin(arg)
+								s.fs = append(s.fs, dfact{a.n, n, -a.k})
+								push(a.n)
+							}
+						}
 					}
 				}
 			}
@@ -993,6 +1135,11 @@ func (p *bprover) defFacts(s *factSet, goal dfact) {
 					if isSignedInt(arg.Type()) && p.c.resultGeParam(cf, 0, j) {
 						a := p.lin(arg)
 						s.fs = append(s.fs, dfact{a.n, n, -a.k})
+						push(a.n)
+					}
+					if isSignedInt(arg.Type()) && p.c.resultLeParam(cf, 0, j) {
+						a := p.lin(arg)
+						s.fs = append(s.fs, dfact{n, a.n, a.k})
 						push(a.n)
 					}
 				}
@@ -1231,6 +1378,137 @@ func (p *bprover) prove(goal dfact, b *ssa.BasicBlock, extra *factSet, depth int
 	}
 	if depth <= 0 {
 		return false
+	}
+	// k*x >= 0 for a small positive constant k and a slice length (minus a constant) x: holds when x >= 0; a length times
+	// eight cannot wrap in any address space
+	if goal.a == "0" && goal.c >= 0 {
+		if bo, ok := p.vals[goal.b].(*ssa.BinOp); ok && bo.Op == token.MUL {
+			var x ssa.Value
+			if k, ok := constInt(bo.X); ok && k >= 1 && k <= 8 {
+				x = bo.Y
+			} else if k, ok := constInt(bo.Y); ok && k >= 1 && k <= 8 {
+				x = bo.X
+			}
+			if x != nil {
+				if l := p.lin(x); strings.HasPrefix(l.n, "len:") && l.k <= 0 {
+					key := fmt.Sprintf("mul|%d|%s", b.Index, goal)
+					if !p.stack[key] {
+						p.stack[key] = true
+						ok := p.prove(dfact{"0", l.n, l.k}, b, extra, depth-1)
+						delete(p.stack, key)
+						if ok {
+							return true
+						}
+					}
+				}
+			}
+		}
+	}
+	// a bound on a difference of two variables against a constant is a bound between the two: (x - y) >= -c iff y - x <= c
+	// (both operands bounded above and non-negative or small, so that the difference does not wrap)
+	for _, zeroFirst := range []bool{true, false} {
+		dn, zn := goal.b, goal.a
+		if !zeroFirst {
+			dn, zn = goal.a, goal.b
+		}
+		if zn != "0" {
+			continue
+		}
+		bo, ok := p.vals[dn].(*ssa.BinOp)
+		if !ok || bo.Op != token.SUB || !isSignedInt(bo.Type()) || intWidth(bo.Type()) < 64 {
+			continue
+		}
+		if _, isK := constInt(bo.Y); isK {
+			continue
+		}
+		key := fmt.Sprintf("sub|%d|%s", b.Index, goal)
+		if p.stack[key] {
+			continue
+		}
+		p.stack[key] = true
+		x, y := p.lin(bo.X), p.lin(bo.Y)
+		// the machine difference is the real one unless it wraps: for the lower bound that takes x bounded above and y
+		// bounded below, for the upper bound the other way round (the opposite wrap contradicts what is proved)
+		const big = int64(1) << 62
+		hi, lo := x, y
+		if !zeroFirst {
+			hi, lo = y, x
+		}
+		if !(p.boundedAbove(p.vals[hi.n], bo) || hi.n == "0" || p.prove(dfact{hi.n, "0", big - hi.k}, b, extra, depth-1)) ||
+			!(lo.n == "0" || strings.HasPrefix(lo.n, "len:") || p.prove(dfact{"0", lo.n, big + lo.k}, b, extra, depth-1)) {
+			delete(p.stack, key)
+			continue
+		}
+		var g dfact
+		if zeroFirst {
+			g = dfact{y.n, x.n, goal.c - y.k + x.k} // 0 - (x-y) <= c
+		} else {
+			g = dfact{x.n, y.n, goal.c - x.k + y.k} // (x-y) - 0 <= c
+		}
+		ok = p.prove(g, b, extra, depth-1)
+		delete(p.stack, key)
+		if ok {
+			return true
+		}
+	}
+	// a term that is the result of a selector (maxInt(a, 0), atMost(v, high)): the goal holds if it holds for each of the
+	// values the helper can hand back
+	for _, side := range []string{goal.a, goal.b} {
+		call, ok := p.vals[side].(*ssa.Call)
+		if !ok {
+			continue
+		}
+		alts := selectorResults(call)
+		if len(alts) == 0 {
+			continue
+		}
+		key := fmt.Sprintf("sel|%d|%s", b.Index, goal)
+		if p.stack[key] {
+			continue
+		}
+		p.stack[key] = true
+		all := true
+		for _, alt := range alts {
+			g := substFact(goal, map[string]lt{side: p.lin(alt)})
+			if !p.prove(g, b, extra, depth-1) {
+				all = false
+				break
+			}
+		}
+		delete(p.stack, key)
+		if all {
+			return true
+		}
+	}
+	// a write index that trails the loop counter (two-pointer compaction: w <= i-1 < len): a - b <= c follows from
+	// a - i <= k and i - b <= c - k for another counter i of the same loop
+	if phi, ok := p.vals[goal.a].(*ssa.Phi); ok && !p.inTrans && isLoopHeaderBlock(phi.Block()) && phi.Block().Dominates(b) && strings.HasPrefix(goal.b, "len:") {
+		p.inTrans = true
+		done := false
+		for _, in := range phi.Block().Instrs {
+			other, isPhi := in.(*ssa.Phi)
+			if !isPhi {
+				break
+			}
+			if other == phi || !isIntType(other.Type()) {
+				continue
+			}
+			on := "v:" + other.Name()
+			p.vals[on] = other
+			for _, k := range []int64{-1, 0} {
+				if p.prove(dfact{goal.a, on, k}, b, extra, depth-1) && p.prove(dfact{on, goal.b, goal.c - k}, b, extra, depth-1) {
+					done = true
+					break
+				}
+			}
+			if done {
+				break
+			}
+		}
+		p.inTrans = false
+		if done {
+			return true
+		}
 	}
 	// split at joins up the dominator chain, nearest first
 	tried := 0
@@ -3355,14 +3633,20 @@ func bestSoFarIndex(idx, sl *ssa.Phi) bool {
 
 // resultGeParam: every value fn returns as result k is at least its integer parameter j (a scanner that starts at a given
 // position and only moves forward). Proved inside fn with the prover; memoised.
-func (c *C) resultGeParam(fn *ssa.Function, k, j int) bool {
+func (c *C) resultGeParam(fn *ssa.Function, k, j int) bool { return c.resultCmpParam(fn, k, j, false) }
+
+// resultLeParam: every value fn returns as result k is at most its integer parameter j (a clamp: minInt(a, b), a range
+// normaliser that hands back positions inside the size it was given).
+func (c *C) resultLeParam(fn *ssa.Function, k, j int) bool { return c.resultCmpParam(fn, k, j, true) }
+
+func (c *C) resultCmpParam(fn *ssa.Function, k, j int, le bool) bool {
 	if fn == nil || fn.Blocks == nil || j >= len(fn.Params) || !isSignedInt(fn.Params[j].Type()) || calleeProofDepth >= 2 {
 		return false
 	}
 	if c.rgpMemo == nil {
 		c.rgpMemo = map[string]int{}
 	}
-	key := fmt.Sprintf("%s|%d|%d", fn.String(), k, j)
+	key := fmt.Sprintf("%s|%d|%d|%v", fn.String(), k, j, le)
 	switch c.rgpMemo[key] {
 	case 1:
 		return true
@@ -3382,7 +3666,11 @@ func (c *C) resultGeParam(fn *ssa.Function, k, j int) bool {
 			}
 			for _, v := range retResults(ret)[k] {
 				any = true
-				if !pr.ProveLE(pr.lin(fn.Params[j]), pr.lin(v), 0, ret) {
+				if le {
+					if !pr.ProveLE(pr.lin(v), pr.lin(fn.Params[j]), 0, ret) {
+						res = false
+					}
+				} else if !pr.ProveLE(pr.lin(fn.Params[j]), pr.lin(v), 0, ret) {
 					res = false
 				}
 			}
@@ -3394,6 +3682,255 @@ func (c *C) resultGeParam(fn *ssa.Function, k, j int) bool {
 	}
 	c.rgpMemo[key] = 2
 	return false
+}
+
+// resultLeResult: at every return of fn, result k1 is at most result k2.
+func (c *C) resultLeResult(fn *ssa.Function, k1, k2 int) bool {
+	if fn == nil || fn.Blocks == nil || calleeProofDepth >= 2 {
+		return false
+	}
+	if c.rgpMemo == nil {
+		c.rgpMemo = map[string]int{}
+	}
+	key := fmt.Sprintf("%s|res%d<=res%d", fn.String(), k1, k2)
+	switch c.rgpMemo[key] {
+	case 1:
+		return true
+	case 2, 3:
+		return false
+	}
+	c.rgpMemo[key] = 3
+	calleeProofDepth++
+	defer func() { calleeProofDepth-- }()
+	res, any := true, false
+	pr := c.newProver(fn)
+	for _, b := range fn.Blocks {
+		for _, in := range b.Instrs {
+			ret, ok := in.(*ssa.Return)
+			if !ok || len(ret.Results) <= k1 || len(ret.Results) <= k2 || !isSignedInt(ret.Results[k1].Type()) || !isSignedInt(ret.Results[k2].Type()) {
+				continue
+			}
+			rr := retResults(ret)
+			for _, v1 := range rr[k1] {
+				for _, v2 := range rr[k2] {
+					any = true
+					if !pr.ProveLE(pr.lin(v1), pr.lin(v2), 0, ret) {
+						res = false
+					}
+				}
+			}
+		}
+	}
+	if res && any {
+		c.rgpMemo[key] = 1
+		return true
+	}
+	c.rgpMemo[key] = 2
+	return false
+}
+
+// resultRelWhen: on every return of fn whose boolean result g is the constant `want` (returns where it is the other constant
+// are left out; a computed boolean counts), x <= y holds, where x and y are result k1 / result k2 or, for the index given
+// as -1, parameter j.
+func (c *C) resultRelWhen(fn *ssa.Function, k1, k2, j, g int, want bool) bool {
+	if fn == nil || fn.Blocks == nil || calleeProofDepth >= 2 {
+		return false
+	}
+	if c.rgpMemo == nil {
+		c.rgpMemo = map[string]int{}
+	}
+	key := fmt.Sprintf("%s|rel%d,%d,%d|%d=%v", fn.String(), k1, k2, j, g, want)
+	switch c.rgpMemo[key] {
+	case 1:
+		return true
+	case 2, 3:
+		return false
+	}
+	c.rgpMemo[key] = 3
+	calleeProofDepth++
+	defer func() { calleeProofDepth-- }()
+	res, any := true, false
+	pr := c.newProver(fn)
+	for _, b := range fn.Blocks {
+		for _, in := range b.Instrs {
+			ret, ok := in.(*ssa.Return)
+			if !ok || len(ret.Results) <= g || len(ret.Results) <= k1 || len(ret.Results) <= k2 {
+				continue
+			}
+			rr := retResults(ret)
+			skip := len(rr[g]) > 0
+			for _, gv := range rr[g] {
+				k, isC := gv.(*ssa.Const)
+				if !isC || k.Value == nil || (k.Value.ExactString() == "true") == want {
+					skip = false
+				}
+			}
+			if skip {
+				continue
+			}
+			// return first, last, first <= last: the comparison handed back is what holds when it is true
+			var assume []dfact
+			if len(rr[g]) == 1 {
+				if _, isC := rr[g][0].(*ssa.Const); !isC {
+					assume, _, _ = pr.condFacts(rr[g][0], !want)
+				}
+			}
+			side := func(k int) []ssa.Value {
+				if k < 0 {
+					return []ssa.Value{fn.Params[j]}
+				}
+				return rr[k]
+			}
+			for _, v1 := range side(k1) {
+				for _, v2 := range side(k2) {
+					if !isSignedInt(v1.Type()) || !isSignedInt(v2.Type()) {
+						res = false
+						continue
+					}
+					any = true
+					if !pr.ProveLEx(pr.lin(v1), pr.lin(v2), 0, ret, assume) {
+						res = false
+					}
+				}
+			}
+		}
+	}
+	if os.Getenv("RG_DBG_REL") != "" {
+		fmt.Fprintf(os.Stderr, "resultRelWhen %s -> %v any=%v\n", key, res, any)
+	}
+	if res && any {
+		c.rgpMemo[key] = 1
+		return true
+	}
+	c.rgpMemo[key] = 2
+	return false
+}
+
+// singleStoreCell: al is a local variable's cell that is stored to exactly once in its function, by a store that dominates
+// load, and whose only other uses are loads and captures by closures that (with the closures they make) only load it.
+func singleStoreCell(al *ssa.Alloc, load *ssa.UnOp) (ssa.Value, bool) {
+	if al.Referrers() == nil {
+		return nil, false
+	}
+	var store *ssa.Store
+	var readOnly func(fn *ssa.Function, fv *ssa.FreeVar, d int) bool
+	readOnly = func(fn *ssa.Function, fv *ssa.FreeVar, d int) bool {
+		if d > 3 || fv.Referrers() == nil {
+			return d <= 3
+		}
+		for _, r := range *fv.Referrers() {
+			switch y := r.(type) {
+			case *ssa.UnOp:
+				if y.Op != token.MUL {
+					return false
+				}
+			case *ssa.DebugRef:
+			case *ssa.MakeClosure:
+				inner := y.Fn.(*ssa.Function)
+				for i, b := range y.Bindings {
+					if b == ssa.Value(fv) && !readOnly(inner, inner.FreeVars[i], d+1) {
+						return false
+					}
+				}
+			default:
+				return false
+			}
+		}
+		return true
+	}
+	for _, r := range *al.Referrers() {
+		switch y := r.(type) {
+		case *ssa.Store:
+			if y.Addr != ssa.Value(al) || store != nil {
+				return nil, false
+			}
+			store = y
+		case *ssa.UnOp:
+			if y.Op != token.MUL {
+				return nil, false
+			}
+		case *ssa.DebugRef:
+		case *ssa.MakeClosure:
+			inner := y.Fn.(*ssa.Function)
+			for i, b := range y.Bindings {
+				if b == ssa.Value(al) && !readOnly(inner, inner.FreeVars[i], 0) {
+					return nil, false
+				}
+			}
+		default:
+			return nil, false
+		}
+	}
+	if store == nil {
+		return nil, false
+	}
+	if store.Block() == load.Block() {
+		if !before(store, load) {
+			return nil, false
+		}
+	} else if !store.Block().Dominates(load.Block()) {
+		return nil, false
+	}
+	return store.Val, true
+}
+
+// selectorResults: call is to a small first-party helper with one integer result that only ever hands back one of its own
+// integer parameters or a constant (a clamp); the values it can yield, in the caller's terms.
+func selectorResults(call *ssa.Call) []ssa.Value {
+	cf := call.Call.StaticCallee()
+	if cf == nil || cf.Blocks == nil || !firstParty(cf) || len(cf.Blocks) > 8 || cf.Signature.Results().Len() != 1 || !isIntType(call.Type()) || call.Call.IsInvoke() {
+		return nil
+	}
+	var out []ssa.Value
+	seen := map[ssa.Value]bool{}
+	var expand func(v ssa.Value, d int) bool
+	expand = func(v ssa.Value, d int) bool {
+		if seen[v] {
+			return true
+		}
+		seen[v] = true
+		switch x := v.(type) {
+		case *ssa.Parameter:
+			for i, prm := range cf.Params {
+				if prm == x && i < len(call.Call.Args) {
+					out = append(out, call.Call.Args[i])
+					return true
+				}
+			}
+			return false
+		case *ssa.Const:
+			out = append(out, x)
+			return true
+		case *ssa.Phi:
+			if d > 3 {
+				return false
+			}
+			for _, e := range x.Edges {
+				if !expand(e, d+1) {
+					return false
+				}
+			}
+			return true
+		}
+		return false
+	}
+	n := 0
+	for _, b := range cf.Blocks {
+		ret, ok := b.Instrs[len(b.Instrs)-1].(*ssa.Return)
+		if !ok {
+			continue
+		}
+		n++
+		for _, v := range retResults(ret)[0] {
+			if !expand(v, 0) {
+				return nil
+			}
+		}
+	}
+	if n == 0 {
+		return nil
+	}
+	return out
 }
 
 // scaledIndex: idx = k*v + c with constants k and c (c may be absent).
@@ -3939,6 +4476,21 @@ func stableBool(v ssa.Value) (string, bool) {
 		}
 		if p, ok := init.(*ssa.Parameter); ok {
 			return paramCanon(p) + "." + fieldName(fa), true
+		}
+		if init != nil {
+			// a record that was filled once from a computed value (opts := parseOptions(..)) and is only read
+			return "cell:" + al.Name() + "." + fieldName(fa), true
+		}
+	case *ssa.Extract, *ssa.Call:
+		// a register: the same SSA value in two tests is the same boolean
+		return "reg:" + v.Name(), true
+	}
+	if x, ok := v.(*ssa.Field); ok {
+		switch x.X.(type) {
+		case *ssa.Extract, *ssa.Call:
+			if st, ok := x.X.Type().Underlying().(*types.Struct); ok {
+				return "reg:" + x.X.Name() + "." + st.Field(x.Field).Name(), true
+			}
 		}
 	}
 	return "", false
